@@ -299,6 +299,51 @@ func init() {
 // parallel op: free-running goroutines (no scheduler) hammering Match*, Skip* and one shared Config.
 // Meant for a -race build: the race detector makes the binary fail; the op itself reports lost or
 // torn entries.
+// A FORCED interleaving for Go values: goroutine A's call is stopped inside a transparent Custom matcher (after its value was
+// encoded, before the snapshot is taken) while goroutine B makes a complete call with a value of the same encoded size - on ONE
+// processor, so that anything the library recycles per processor (a pooled buffer) is handed from A to B. Each file must hold
+// its own goroutine's value.
+func vPoolScenario(dir string) bool {
+	old := runtime.GOMAXPROCS(1)
+	defer runtime.GOMAXPROCS(old)
+	os.RemoveAll(dir)
+	cfg := WithConfig(Dir(dir))
+	tA, tB := &vT{name: "TestPoolA"}, &vT{name: "TestPoolB"}
+	aIn, bDone := make(chan struct{}), make(chan struct{})
+	var wg sync.WaitGroup
+	wg.Add(2)
+	go func() {
+		defer wg.Done()
+		cfg.MatchStandaloneJSON(tA, vParDoc{ID: 1, Payload: strings.Repeat("a", 512)}, match.Custom("id", func(v any) (any, error) {
+			close(aIn)
+			<-bDone
+			return v, nil
+		}))
+	}()
+	go func() {
+		defer wg.Done()
+		<-aIn
+		cfg.MatchStandaloneJSON(tB, vParDoc{ID: 2, Payload: strings.Repeat("b", 512)})
+		close(bDone)
+	}()
+	wg.Wait()
+	ok := len(tA.errs) == 0 && len(tB.errs) == 0
+	for _, x := range []struct {
+		f, id, pay string
+	}{{"TestPoolA_1.snap.json", "\"id\": 1,", strings.Repeat("a", 512)}, {"TestPoolB_1.snap.json", "\"id\": 2,", strings.Repeat("b", 512)}} {
+		b, err := os.ReadFile(filepath.Join(dir, x.f))
+		if err != nil || !strings.Contains(string(b), x.id) || !strings.Contains(string(b), x.pay) {
+			ok = false
+		}
+	}
+	for _, t := range []*vT{tA, tB} {
+		for _, f := range t.cleanups {
+			f()
+		}
+	}
+	return ok
+}
+
 type vParDoc struct {
 	ID      int    `json:"id"`
 	Payload string `json:"payload"`
@@ -339,7 +384,15 @@ func init() {
 					}
 					MatchStandaloneSnapshot(t, "standalone")
 					// Go VALUES of equal encoded size from many goroutines: each stored document is its own value
-					shared.MatchStandaloneJSON(t, vParDoc{ID: g, Payload: strings.Repeat(string(rune('a'+g)), 2048)})
+					// (a transparent Custom matcher that yields the processor sits between the encoding of the value and its use:
+					// whatever the library keeps of the encoded bytes must still be this goroutine's own)
+					shared.MatchStandaloneJSON(t, vParDoc{ID: g, Payload: strings.Repeat(string(rune('a'+g)), 2048)},
+						match.Custom("id", func(v any) (any, error) {
+							for k := 0; k < 4; k++ {
+								runtime.Gosched()
+							}
+							return v, nil
+						}))
 				}()
 			}
 			wg.Wait()
@@ -349,6 +402,9 @@ func init() {
 				}
 			}
 			ev := vEvents()
+			if round < 3 && !vPoolScenario(r.sb.root+"/pool") {
+				bad++
+			}
 			if ev[0]+ev[1]+ev[2]+ev[3] != ng*7 {
 				bad++
 			}
